@@ -205,7 +205,11 @@ def check_stencil(case):
     for tag, a in _inputs(spec, op, opts, rank_in, g.dim, full_shape, dtype, case["seed"], case["kexp"]):
         work = a.copy()
         out = np.full(out_shape, np.nan, dtype=a.dtype)
-        f(work, out)
+        try:
+            f(work, out)
+        except Exception as e:  # noqa: BLE001 - any exception on a sound padded array is a violation
+            raise Violation(f"{backend} {op}{kw} on {spec!r} ({dtype}, input '{tag}') raised "
+                            f"{type(e).__name__}: {e}", key=key + ":exception")
         if not np.array_equal(work, a):
             raise Violation(f"{op}{kw} modified its input array ({tag}); grid {spec!r}",
                             key=key + ":input-modified")
